@@ -4,6 +4,8 @@ import ZvbiModel.Demux.LemmasFeed
 -/
 namespace Zvbi.Demux
 
+variable {cfg : SrcCfg}
+
 def Full (f : Frame) : Prop := f.lines.length ≥ N_SLICED
 
 theorem lineAddress_full (f : Frame) (lofp : Nat) (sys : Bool) (h : Full f) : lineAddress f lofp sys = .err := by
@@ -89,17 +91,17 @@ theorem validHeader_deaf (fs fs' : FS) (h : Bytes) (hd : Deaf fs) (hv : validHea
     | (cases hv; done)
     | (cases hv; exact hd)
 
-theorem pesIter_deaf (hflag : Zvbi.Gen.demuxPesDiscardsOnError = false) (sk la : Nat) (fs : FS) (win : Bytes)
+theorem pesIter_deaf (hflag : cfg.pesDiscards = false) (sk la : Nat) (fs : FS) (win : Bytes)
     (h : Deaf fs) :
-    (pesIter true false sk la fs win).2.2.1 = [] ∧ Deaf (pesIter true false sk la fs win).2.1 := by
+    (pesIter true cfg sk la fs win).2.2.1 = [] ∧ Deaf (pesIter true cfg sk la fs win).2.1 := by
   unfold pesIter
   simp only []
   split
   · split
     · exact ⟨rfl, h⟩
     · have hd0 : Deaf { fs with frame := { fs.frame with nDu := 0 } } := h
-      have hp := pesPacketFrame_deaf 2 true false _ (win.take la) hd0
-      rcases hpp : pesPacketFrame 3 true false { fs with frame := { fs.frame with nDu := 0 } } (win.take la)
+      have hp := pesPacketFrame_deaf 2 true cfg.corSkipsEmpty _ (win.take la) hd0
+      rcases hpp : pesPacketFrame 3 true cfg.corSkipsEmpty { fs with frame := { fs.frame with nDu := 0 } } (win.take la)
         with ⟨fs1, outs, r, rest⟩
       rw [hpp] at hp
       simp only at hp
@@ -129,8 +131,8 @@ theorem pesIter_deaf (hflag : Zvbi.Gen.demuxPesDiscardsOnError = false) (sk la :
 
 /-- **lock-up.** On the unchanged tree a PES demux whose line buffer is full and which is not at a
 frame start delivers nothing, whatever follows. -/
-theorem arun_deaf (hflag : Zvbi.Gen.demuxPesDiscardsOnError = false) (L : Bytes) :
-    ∀ (c : Core), Deaf c.fs → (arun c L).frames = [] ∧ Deaf (arun c L).core.fs := by
+theorem arun_deaf (hflag : cfg.pesDiscards = false) (L : Bytes) :
+    ∀ (c : Core), Deaf c.fs → (arun cfg c L).frames = [] ∧ Deaf (arun cfg c L).core.fs := by
   induction L with
   | nil => intro c h; exact ⟨rfl, h⟩
   | cons x L ih =>
@@ -142,7 +144,7 @@ theorem arun_deaf (hflag : Zvbi.Gen.demuxPesDiscardsOnError = false) (L : Bytes)
       · exact ⟨rfl, h⟩
       · have hm := pesIter_deaf hflag 0 c.lookahead c.fs ((x :: L).take c.lookahead) h
         unfold micro
-        rcases hp : pesIter true false 0 c.lookahead c.fs ((x :: L).take c.lookahead) with ⟨⟨sk, la⟩, fs', outs, st⟩
+        rcases hp : pesIter true cfg 0 c.lookahead c.fs ((x :: L).take c.lookahead) with ⟨⟨sk, la⟩, fs', outs, st⟩
         rw [hp] at hm
         simp only at hm
         obtain ⟨h1, h2⟩ := hm
